@@ -1,4 +1,105 @@
+(* C06/Props.v — property theorems only.  Each is closed by [exact] of a lemma from Lemmas.v and followed by
+   Print Assumptions (parsed by the check: must be "Closed under the global context").
+
+   Property C06 (game lifecycle).  The model (Model.v) is the game coroutine WITH fixes/C06-late-player-add.patch
+   and fixes/C06-end-game-before-first-player.patch applied; [trace c ins] is the chronological output of a game
+   with configuration c under the environment inputs ins (one input per suspension of the coroutine: operations
+   issued by handlers of the lifecycle event, batches arriving while a queue handler holds a wait, or the batch
+   arriving while the game idles).  All theorems quantify over every configuration and every input list.
+   The code before the fixes is refuted by [turn_structure_refuted_unfixed] and [game_hangs_refuted_unfixed]. *)
 From Common Require Import Prelude.
-From C06 Require Import Model Lemmas.
-Theorem placeholder : True. Proof. exact placeholder_l. Qed.
-Print Assumptions placeholder.
+From C06 Require Import Model Lemmas Turns.
+Open Scope Z_scope.
+
+(* every trace is accepted by the recogniser of prefixes of the lifecycle grammar (Lemmas.v, [gstep]):
+   game_will_start game_starting game_started turn* game_will_end game_ending game_ended,
+   turn = player_turn_will_start .. started, ball (extra ball)*, player_turn_will_end .. ended,
+   ball = ball_will_start ball_starting ball_started ball_will_end ball_ending ball_ended,
+   with the same player number in all events of a turn, the turn's ball number in all of them (one less before
+   player_turn_started), is_extra_ball false on the first ball and true on the others *)
+Theorem lifecycle_trace_in_grammar : forall c ins, in_grammar (trace c ins).
+Proof. exact lifecycle_trace_in_grammar_l. Qed.
+Print Assumptions lifecycle_trace_in_grammar.
+
+Example lifecycle_example :
+  (* a complete 2-player 1-ball game with an extra ball for player 1: 36 lifecycle events, one Award marker, ends with Fin *)
+  let tr := trace (mkcfg 1 2 3 true)
+                  ([mkin [] [] []; mkin [] [] []; mkin [] [] []; mkin [AddPlayerReq true] [] []] ++
+                   repeat (mkin [] [] [Drain 1]) 4 ++ [mkin [AwardExtra] [] [Drain 1]] ++
+                   repeat (mkin [] [] [Drain 1]) 40) in
+  length tr = 38%nat /\ last tr Fin = Fin /\ mrun gstep G0 tr = Some EF.
+Proof. vm_compute. repeat split; reflexivity. Qed.
+Print Assumptions lifecycle_example.
+
+(* balls in play stays within [0, num_balls_known]: in the final state and in every observation of the trace *)
+Theorem bip_bounds : forall c ins, 0 <= nbk c ->
+  Forall (bp_ok c) (trace c ins) /\ 0 <= bip (final c ins) <= nbk c.
+Proof. exact bip_bounds_l. Qed.
+Print Assumptions bip_bounds.
+
+Example bip_bounds_example :
+  (* 2 balls known; a multiball adds 5, the setter caps at 2; three drains floor at 0 and end the ball *)
+  let c := mkcfg 1 1 2 true in
+  let ins := repeat (mkin [] [] []) 9 ++ [mkin [] [] [AddBip 5]] in
+  0 <= nbk c /\ bip (final c ins) = 2 /\ pc (final c (ins ++ [mkin [] [] [Drain 3]])) = AtEv BWE.
+Proof. vm_compute. repeat split; congruence. Qed.
+Print Assumptions bip_bounds_example.
+
+(* the coroutine has returned exactly when machine.game is cleared, exactly when the trace contains the end marker,
+   and from then on no further output is produced whatever the environment does (a new game starts from [init]) *)
+Theorem ended_implies_no_game : forall c ins,
+  (pc (final c ins) = Done <-> active (final c ins) = false) /\
+  (In Fin (trace c ins) <-> pc (final c ins) = Done) /\
+  (pc (final c ins) = Done ->
+   forall more, trace c (ins ++ more) = trace c ins /\ final c (ins ++ more) = final c ins).
+Proof. exact ended_implies_no_game_l. Qed.
+Print Assumptions ended_implies_no_game.
+
+Example ended_example : pc (final hang_cfg (hang_ins ++ repeat calm 4)) = Done /\ active init = true.
+Proof. vm_compute. split; reflexivity. Qed.
+Print Assumptions ended_example.
+
+(* players rotate 1..n, every turn has a ball number in 1..balls_per_game, and nobody joins after round 1:
+   every player_turn_started(p, b) event, with n players at that moment, is a legal successor of the previous one
+   (Turns.v, [tsuccb]): 1 <= p <= n, 1 <= b <= balls_per_game; the first turn is (1,1); after (p0,b0,n0):
+   n0 <= n, (b0 >= 2 -> n = n0), and either (p,b) = (p0+1, b0) or p0 = n and (p,b) = (1, b0+1).
+   Hence the turns are (1,1) .. (n,1) (1,2) .. (n,2) .. : one turn per player and ball number, in order.
+   (That each turn consists of one ball plus extra balls is part of lifecycle_trace_in_grammar.)
+   Not proved here, checked on the implementation by the oracle only: without an end request the game ends exactly
+   after turn (n, balls_per_game); the number of extra balls played equals the number awarded. *)
+Theorem turn_structure : forall c ins, (1 <= bpg c)%nat -> turns_ok c (trace c ins).
+Proof. exact turn_structure_l. Qed.
+Print Assumptions turn_structure.
+
+Example turn_structure_example :
+  (* three players (two join during ball 1), two balls each: six turns, the last one is player 3 ball 2;
+     the same monitor rejects the trace of the unfixed code on the late-add witness *)
+  mrun (tstep (mkcfg 2 4 3 true)) None
+       (trace (mkcfg 2 4 3 true)
+              (repeat calm 6 ++ [add_in_handler; add_in_handler] ++ repeat calm 120)) = Some (Some (3, 2, 3)%nat) /\
+  mrun (tstep late_add_cfg) None (trace_unfixed late_add_cfg late_add_ins) = None /\
+  mrun (tstep late_add_cfg) None (trace late_add_cfg late_add_ins) = Some (Some (1, 2, 1)%nat).
+Proof. vm_compute. repeat split; reflexivity. Qed.
+Print Assumptions turn_structure_example.
+
+(* the unfixed code: a player-add request accepted between the rotation to player 1 and the start of his second
+   turn makes player 1 play ball 3 of a 2-ball game (witness replayed on the implementation: corpus/C06/game.1.json) *)
+Theorem turn_structure_refuted_unfixed :
+  exists c ins, (1 <= bpg c)%nat /\ existsb (turn_ball_exceeds c) (trace_unfixed c ins) = true.
+Proof. exact turn_structure_refuted_unfixed_l. Qed.
+Print Assumptions turn_structure_refuted_unfixed.
+
+(* the unfixed code: end_game before the first player exists leaves the game waiting for ever, whatever is tried
+   afterwards (witness replayed on the implementation: corpus/C06/game.2.json) *)
+Theorem game_hangs_refuted_unfixed :
+  exists c ins, forall n,
+    let s := fst (steps_g unfixed c init (ins ++ repeat retry n)) in
+    pc s = WaitPlayer /\ active s = true.
+Proof. exact game_hangs_refuted_unfixed_l. Qed.
+Print Assumptions game_hangs_refuted_unfixed.
+
+Example witnesses_fixed :
+  existsb (turn_ball_exceeds late_add_cfg) (trace late_add_cfg late_add_ins) = false /\
+  pc (final hang_cfg (hang_ins ++ repeat calm 4)) = Done.
+Proof. split; [exact late_add_fixed_ok | exact (proj2 hang_fixed_ends)]. Qed.
+Print Assumptions witnesses_fixed.
